@@ -18,6 +18,7 @@ ASSUMPTIONS = ["sync.Mutex / sync.Cond semantics (Wait releases the lock and re-
 
 def corpus():
     return [
+        "run prop=C02 mode=constant rate=3000000/100ms dist=none dur=250 conc=1 body=400 timeout=5000",   # D22: millions pending when the run ends
         "pool.script 2 0 T7;x;r",                        # D4: tick racing with shutdown
         "pool.script 1 1 t1;s;L;f1;t1;W;t5;l;s",         # D5: tick between the limit path's discard and cancel
         "pool.script 2 0 t5;s;t3;s;f2;s",
